@@ -41,18 +41,27 @@ def gen_menu(method, honesty=False):
             for sr in (2, 1.6, 3):
                 out.append(('Max', dict(base_step=bs, num_steps=15, step_ratio=sr)))
         out.append(('Max', dict(base_step=0.25, num_steps=25, step_ratio=2)))
+        out.append(NEGATIVE['real'])
         if honesty:     # long and steep: no accuracy claim is possible, but the estimate must stay honest (C02)
             out.append(('Max', dict(step_ratio=4.0, num_steps=20)))
     else:
         for ne in (2, 5):
             out.append(('Min', dict(num_extrap=ne)))
+        out.append(NEGATIVE['complex'])
     if honesty:         # a bare scalar step: a single estimate is left, its error estimate comes from another branch
         out.append(('scalar', dict(step=1e-3)))
         out.append(('scalar', dict(step=1e-4)))
+        out.append(('scalar', dict(step=-1e-3)))
     for st in (0.1, 1e-2):
         out.append(('scalar', dict(step=st, num_extrap=5)))
     out += rows_menu(honesty)
     return out
+
+
+# steps of negative sign (the differences are then taken on the other side of x; the quotient by h^n keeps the
+# derivative's sign): same envelope, and the record must stay self-consistent
+NEGATIVE = {'real': ('Max', dict(base_step=-0.25, num_steps=15, step_ratio=2)),
+            'complex': ('scalar', dict(step=-1e-2, num_extrap=5))}
 
 
 def rows_menu(honesty):
@@ -68,9 +77,10 @@ def rows_menu(honesty):
 def quick_gen_menu(method, honesty=False):
     """user generators of the menu that also run in the quick tier (on a rotating slice of programs)"""
     if method in ('central', 'forward', 'backward'):
-        return [('Max', dict(base_step=0.25, num_steps=15, step_ratio=2))] + (
-            [('Max', dict(step_ratio=4.0, num_steps=20)), ('scalar', dict(step=1e-3))] if honesty else []) + rows_menu(honesty)
-    return [('Min', dict(num_extrap=5))] + rows_menu(honesty)
+        return [('Max', dict(base_step=0.25, num_steps=15, step_ratio=2)), NEGATIVE['real']] + (
+            [('Max', dict(step_ratio=4.0, num_steps=20)), ('scalar', dict(step=1e-3)), ('scalar', dict(step=-1e-3))]
+            if honesty else []) + rows_menu(honesty)
+    return [('Min', dict(num_extrap=5)), NEGATIVE['complex']] + rows_menu(honesty)
 
 
 def quick_points(ctx):
